@@ -40,13 +40,13 @@ inbound data, nothing is discarded and the peer's read loop never ends with a re
 ends with EOF the peer application has read exactly the bytes `write(2)` accepted, in order — which,
 when the user disconnected (or the server / client was stopped) with nothing left in `send_buff_`
 (i.e. after the send-complete notification, `C06_send_complete_only_when_empty`), are exactly the
-bytes handed to `send` (`kept`; `= sentAll` when no send hit a write error). -/
+bytes handed to `send` calls that returned true (`sentAll`), whatever errors `write(2)` answered on
+the way (patches/C06-09). -/
 theorem C06_active_close_delivers_partial (inet : Bool) (ops : List KOp) :
     let k := krun { inet := inet } kinit ops
     (∀ a b, Sys.linger a b ∉ k.sys) ∧
     (k.unreadAtClose = false → k.aborted = false ∧ k.lost = [] ∧ k.peerEnd ≠ .reset) ∧
-    (k.peerEnd = .eof → k.peerGot = k.u.wire ∧
-       (k.u.sendQ = [] → k.peerGot = k.u.kept ∧ (k.u.drops = 0 → k.peerGot = k.u.sentAll))) := by
+    (k.peerEnd = .eof → k.peerGot = k.u.wire ∧ (k.u.sendQ = [] → k.peerGot = k.u.sentAll)) := by
   intro k
   have h : KInv { inet := inet } k := kinv_krun _ ops kinit (kinv_init _)
   have hl := h.lingerCfg rfl
@@ -70,9 +70,7 @@ theorem C06_active_close_delivers_partial (inet : Bool) (ops : List KOp) :
     obtain ⟨uops, hu⟩ := h.reach
     have hs := C06_send_stream uops
     rw [← hu] at hs
-    have hk : k.u.wire = k.u.kept := by have := hs.1; rwa [hq, List.append_nil] at this
-    refine ⟨by rw [hw, hk], fun hd => ?_⟩
-    have := hs.2 hd
+    have := hs.1
     rw [hq, List.append_nil] at this
     rw [hw, this]
 
@@ -174,8 +172,8 @@ hypotheses of `C06_active_close_delivers_partial` (`unreadAtClose = false`, `pee
 are met and the peer has everything -/
 example :
     let k := krun {} kinit
-      [.user .cinit 0, .user (.setScb (some [.disconnect])) 0, .user (.kw [.accept 1, .eagain, .accept 1]) 0,
-       .user (.send [1, 2, 3]) 0, .peerRead 0, .user .wr 0, .user .wr 0, .user .wr 0, .peerRead 0, .user .wr 0,
+      [.user .cinit 0, .user (.setScb (some [.disconnect])) 0, .user (.kw [⟨none, .accept 1⟩, ⟨some .cb, .err 4⟩, ⟨none, .eagain⟩, ⟨none, .accept 1⟩]) 0,
+       .user (.send [1, 2, 3]) 0, .peerRead 0, .user .wr 0, .user .wr 0, .user .wr 0, .user .wr 0, .peerRead 0, .user .wr 0,
        .peerRead 5, .peerRead 5]
     k.unreadAtClose = false ∧ k.peerEnd = .eof ∧ k.u.sendQ = [] ∧ k.u.drops = 0 ∧ k.closed = true ∧
     k.peerGot = [1, 2, 3] ∧ k.u.hist = [.sendComplete 0] := by
